@@ -21,6 +21,7 @@ type C12Plan struct {
 	Shallow []int    `json:"shallow"` // variants whose table objects are absent (never fetched)
 	Delete  []int    `json:"delete"`  // indices into Refs deleted before pruning
 	ViaCLI  bool     `json:"via_cli"`
+	Faults  []*Fault `json:"faults,omitempty"` // store-op errors injected into the first prune
 }
 
 type C12Ref struct {
@@ -46,6 +47,11 @@ func init() {
 			for i := range p.Refs {
 				if r.Chance(0.35) {
 					p.Delete = append(p.Delete, i)
+				}
+			}
+			if r.Chance(0.3) {
+				for k := r.Range(1, 2); k > 0; k-- {
+					p.Faults = append(p.Faults, &Fault{Op: Pick(r, []string{"get", "get", "read", "del", "filterkey", "any"}), Prefix: Pick(r, []string{"com/", "com/", "tbl/", "blk", ""}), Nth: r.Range(1, 30), Sticky: r.Chance(0.2)})
 				}
 			}
 			return p
@@ -172,8 +178,28 @@ func execC12(t *testing.T, raw json.RawMessage, res *Result) {
 			reach[a] = true
 		}
 	}
+	if len(p.Faults) > 8 {
+		res.Invalid("faults")
+		return
+	}
+	faultFired := false
 	runPrune := func(which string) (ok bool) {
 		logStart := w.LogLen()
+		if which == "first" && len(p.Faults) > 0 {
+			for _, f := range p.Faults {
+				f.seen, f.Fired = 0, 0
+			}
+			st.Faults = p.Faults
+			defer func() {
+				st.Faults = nil
+				for _, f := range p.Faults {
+					if f.Fired > 0 {
+						faultFired = true
+						res.fault("store_"+f.Op, f.Fired)
+					}
+				}
+			}()
+		}
 		if p.ViaCLI {
 			cmdName := "prune"
 			if which == "second" {
@@ -184,6 +210,10 @@ func execC12(t *testing.T, raw json.RawMessage, res *Result) {
 				return false
 			}
 			if cr.Err != nil {
+				if which == "first" && faultsFired(p.Faults) {
+					res.probe("prune_failed_on_injected_error", 1)
+					return true
+				}
 				res.Violate("prune-error", "%s `wrgl %s` failed: %v", which, cmdName, cr.Err)
 				return false
 			}
@@ -203,11 +233,15 @@ func execC12(t *testing.T, raw json.RawMessage, res *Result) {
 				return false
 			}
 			if perr != nil {
+				if which == "first" && faultsFired(p.Faults) {
+					res.probe("prune_failed_on_injected_error", 1)
+					return true
+				}
 				res.Violate("prune-error", "%s prune failed: %v", which, perr)
 				return false
 			}
 		}
-		if which == "second" {
+		if which == "second" && !faultFired {
 			for _, r := range w.Log[logStart:] {
 				if r.Store == st.Name {
 					res.Violate("second-prune-writes", "a repeated prune performed store writes (first: %s %s)", r.Op, FmtKey(r.Key))
@@ -220,7 +254,7 @@ func execC12(t *testing.T, raw json.RawMessage, res *Result) {
 	if !runPrune("first") {
 		return
 	}
-	after := st.Snapshot()
+	checkAfter := func(after map[string][]byte, strict bool) bool {
 	// survivors
 	keepTables := map[string]bool{}
 	for _, k := range sortStrings(keysOfMap(before)) {
@@ -231,13 +265,13 @@ func execC12(t *testing.T, raw json.RawMessage, res *Result) {
 		if reach[sum] {
 			if v, ok := after[k]; !ok || !bytes.Equal(v, before[k]) {
 				res.Violate("reachable-commit-removed", "commit %x is reachable from a ref but was removed or altered by prune", sum)
-				return
+				return false
 			}
 			c := rawCommit(mapReader(before), []byte(sum))
 			keepTables[string(c.Table)] = true
-		} else if _, ok := after[k]; ok {
+		} else if _, ok := after[k]; ok && strict {
 			res.Violate("unreachable-commit-kept", "commit %x is not reachable from any ref but survived prune", sum)
-			return
+			return false
 		}
 	}
 	keepBlocks := map[string]bool{}
@@ -251,7 +285,7 @@ func execC12(t *testing.T, raw json.RawMessage, res *Result) {
 			if bv, ok := before[pre+ts]; ok {
 				if av, ok := after[pre+ts]; !ok || !bytes.Equal(av, bv) {
 					res.Violate("reachable-table-damaged", "%s%x of a reachable commit was removed or altered by prune", pre, ts)
-					return
+					return false
 				}
 			}
 		}
@@ -266,7 +300,7 @@ func execC12(t *testing.T, raw json.RawMessage, res *Result) {
 				if bv, ok := before[key]; ok {
 					if av, ok := after[key]; !ok || !bytes.Equal(av, bv) {
 						res.Violate("reachable-block-removed", "%s of a reachable table %x was removed by prune", FmtKey(key), ts)
-						return
+						return false
 					}
 				}
 			}
@@ -274,7 +308,7 @@ func execC12(t *testing.T, raw json.RawMessage, res *Result) {
 		if beforeOK[ts] {
 			if c, d := CheckTable(mapReader(after), []byte(ts)); c != "" {
 				res.Violate("reachable-table-damaged", "table %x was sound before prune and is not afterwards: %s %s", ts, c, d)
-				return
+				return false
 			}
 		}
 	}
@@ -300,19 +334,31 @@ func execC12(t *testing.T, raw json.RawMessage, res *Result) {
 	for _, k := range sortStrings(keysOfMap(after)) {
 		switch {
 		case strings.HasPrefix(k, "tbl/"):
-			if goneTables[k[4:]] {
+			if goneTables[k[4:]] && strict {
 				res.Violate("unreferenced-table-kept", "table %x is referenced only by removed commits but survived prune", k[4:])
-				return
+				return false
 			}
 		case strings.HasPrefix(k, "blk/"):
-			if goneBlocks[k[4:]] {
+			if goneBlocks[k[4:]] && strict {
 				res.Violate("unreferenced-block-kept", "block %x is referenced only by removed tables but survived prune", k[4:])
-				return
+				return false
 			}
 		}
 	}
+	return true
+	}
+	if !checkAfter(st.Snapshot(), !faultFired) {
+		return
+	}
 	if !runPrune("second") {
 		return
+	}
+	if faultFired {
+		// once the errors stop, one more prune completes the job
+		if !checkAfter(st.Snapshot(), true) {
+			return
+		}
+		res.probe("prune_completed_after_faulted_run", 1)
 	}
 	removed := 0
 	for k := range before {
@@ -344,4 +390,13 @@ func keysOfBool(m map[string]bool) []string {
 		ks = append(ks, k)
 	}
 	return ks
+}
+
+func faultsFired(fs []*Fault) bool {
+	for _, f := range fs {
+		if f.Fired > 0 {
+			return true
+		}
+	}
+	return false
 }
